@@ -66,6 +66,21 @@ let eval_line (line : string) : (string * string * string) =
        let model = String.concat " " (List.map rres_string res) in
        ("C " ^ dir ^ " " ^ (if String.length recs > 60 then String.sub recs 0 60 else recs) ^ " | " ^
         (if String.length b > 120 then String.sub b 0 120 ^ "..." else b), model, String.trim c)
+     | ["CT"; dir; recs] ->
+       (* the transport fails once between the segments (separated by "/"), the reader retries *)
+       let d = (dir = "1") in
+       let recl = if recs = "none" then [] else List.map bytes_of_hex (String.split_on_char ',' recs) in
+       let tok t = if t = "j" then Junk else
+           match String.split_on_char ':' t with
+           | [h; op; off] -> Honest ((h = "h1"), z_of_int (int_of_string op), z_of_int (int_of_string off))
+           | _ -> failwith "bad token" in
+       let segs = List.map (fun sg -> List.map tok (split_ws sg)) (String.split_on_char '/' b) in
+       let (cur, more) = match segs with [] -> ([], []) | x :: m -> (x, m) in
+       let fuel = nat_of_int (List.length recl + 3) in
+       let res = read_segs fuel d recl { r_op = Z0; r_failed = false } cur more in
+       let model = String.concat " " (List.map (fun r -> match r with ROk _ -> rres_string r | _ -> "err") res) in
+       ("CT " ^ dir ^ " " ^ recs ^ " | " ^ (if String.length b > 160 then String.sub b 0 160 ^ "..." else b),
+        model, String.trim c)
      | _ -> failwith "bad C line")
   | _ ->
     (match split_ws line with
